@@ -13,7 +13,16 @@ what the parser exposes with the *components*, never with another parse:
 
 Spaces: (1) the full product of single-block documents; (2) all ordered pairs and (3) all ordered triples
 of blocks over a fixed 30-block pool, with every choice of 1-2 blank lines at each block boundary; all of
-them with 0, 1 and 2 leading blank lines.
+them with 0, 1 and 2 leading blank lines; (4) near-duplicates: a set of 25 "twin" blocks that differ from one base
+block in exactly one detail (amount/kind/presence of white space inside the urgency comment, a key=value value, the
+change text, the author name or the date; letter case of a key, value, urgency value, comment, package, distribution,
+author; order of the extra pairs): each alone, all ordered pairs and triples of them in one text, every ordered pair
+with an ordinary block between them, and all ordered pairs of them as two single-block texts parsed one after the
+other in one process ("session": state kept between blocks, documents or Changelog objects shows as a wrong
+attribute or a str() difference, because the expected values are the generator's components); the product of all
+urgency spellings x all extra-pair spellings on single blocks; (5) longer-than-usual components (64-character package
+name, 80-character distribution list, 200-character change line, 6 extra pairs, all of them together), alone and
+paired with every pool block in both orders.
 """
 import itertools
 import warnings
@@ -30,7 +39,10 @@ RULE = ("Engine B on a grammar product: states = distinct generator prefixes (pa
         "attributes per block); non-trivial = documents with at least one change line that also use at least one "
         "optional grammar part (leading blank lines, several distributions, urgency comment, extra key=value pairs, "
         "epoch version, blank or whitespace-only change line, or a second block); sweep: one state / transition / trace "
-        "per single-block document in which one grammar component carries one swept character")
+        "per single-block document in which one grammar component carries one swept character; near-duplicate and "
+        "long-component documents: one state / transition per block appended (sessions: per document appended), traces = "
+        "texts parsed (a session of two texts parsed one after the other in the same process counts two), all of them "
+        "non-trivial when they have a change line (they carry a comment and extra pairs, or a second block)")
 BUDGET = {"quick": 240, "thorough": 3000}
 
 POOL_SIZE = 30
@@ -49,6 +61,20 @@ def bounds(tier):
         "pairs": "all 30^2 ordered pairs x separator of 1..2 blank lines x 0..2 leading blank lines",
         "triples": "all 30^3 ordered triples x (1..2)^2 separators x %s leading blank lines" % (
             "0 (quick tier, to stay inside the 30 s limit)" if tier == "quick" else "0..2"),
+        "near_duplicates": (
+            "%d twin blocks = 1 base block + %d one-detail variants (urgency comment: two blanks / tab / two leading blanks / "
+            "no inner blank / letter case; urgency value case x2; extra pairs: value with two blanks / tab / no blank / other "
+            "case, key case x2, pair order; package case; distribution case; change text: two blanks / case / deeper "
+            "indent; author: two blanks / name case / address case; date: two blanks / one-digit day): each alone x 0..2 "
+            "leading blank lines; all %d ordered pairs x separator 1..2; all %d ordered triples (separators 1,1); all ordered "
+            "pairs with each of 2 ordinary pool blocks in between; all %d ordered pairs as a session of two single-block "
+            "texts (two Changelog objects, same process)" % (TWINS, TWINS - 1, TWINS ** 2, TWINS ** 3, TWINS ** 2)),
+        "urgency_x_pairs_spellings": "%d urgency spellings x %d extra-pair spellings (the %d combinations of the single-block "
+                                     "product left out) x %d change-line sequences x 0..2 leading blank lines on one block"
+                                     % (N_URG_ALL, N_KV_ALL, 9, len(_POOL_CHG)),
+        "long_components": "5 blocks (package name of 64 characters; 7 distributions, 80+ characters; change line of exactly "
+                           "200 characters; 6 extra pairs; all four together): alone x 0..2 leading blank lines, and paired "
+                           "with each of the 30 pool blocks in both orders x separator 1..2",
         "sweep": "one legal character at a time in one component of an otherwise fixed single block: " + ", ".join(
             "%s %s x %d" % (name, " / ".join(tpls).replace("%s", "<c>"), len(chars)) for name, tpls, chars in sweep_plan()),
     }
@@ -65,6 +91,14 @@ def assumptions():
         "the text is given as str (the statement's observation point); bytes / line-list input forms are not explored",
         "seed rotates only letters/words inside components (package word, suite names, change text, author name); "
         "the classes of the six regexes see the same character classes for every seed",
+        "near-duplicates: white space INSIDE the urgency comment, inside a key=value value, inside change text, inside the "
+        "author name and after the comma of the date is part of what was written and has to come back verbatim (blank runs "
+        "and a tab; the heading and trailer regexes accept them and the unchanged library keeps them); white space that "
+        "deb-changelog(5) leaves open is NOT generated: none at the end of a heading/value, none after '=' or before ',', "
+        "exactly one blank between distributions and before them; keys that differ only in letter case occur in different "
+        "blocks only (within one heading they would be a repeated key, i.e. not well-formed)",
+        "a session is two well-formed texts given to two Changelog objects one after the other in one process; the "
+        "statement quantifies over texts, so each of them has to satisfy it whatever was parsed before",
         "sweep character sets: package and distribution names [-+.0-9a-zA-Z] (deb-changelog(5); upper case as in "
         "UNRELEASED), versions [A-Za-z0-9.+~-] and the epoch colon as '1:2', urgency values and keys [-0-9a-zA-Z], change "
         "text: printable ASCII U+0020..U+007E and 12 non-ASCII characters; other characters (control characters, line "
@@ -98,6 +132,71 @@ def comps(seed):
         "auth": ["A B <a@b.c>", E + " <>", x + " " + y + " z <q@r>"],
         "date": ["Mon, 01 Jan 2024 00:00:00 +0000", "Thu,  5 Feb 2009 11:22:33 -1200", "1 Jan 2024 0:00:00 +0100"],
     }
+
+
+# comment / extra-pair spellings that differ from an entry of comps() only in white space or letter case
+_ND_COMMENTS = [" (see  NEWS)", " (see\tNEWS)", "  (see NEWS)", " (seeNEWS)", " (See news)"]
+_ND_KV = [[["X-a", "b"], ["y", "c  d"]], [["X-a", "b"], ["y", "c\td"]], [["X-a", "b"], ["y", "cd"]],
+          [["X-a", "b"], ["y", "C D"]], [["x-a", "b"], ["y", "c d"]], [["X-a", "b"], ["Y", "c d"]],
+          [["y", "c d"], ["X-a", "b"]]]
+N_URG_ALL = 3 + len(_ND_COMMENTS) + 2
+N_KV_ALL = 3 + len(_ND_KV)
+TWINS = 25
+
+
+def urg_all(C):
+    return list(C["urg"]) + [("medium", c) for c in _ND_COMMENTS] + [("MEDIUM", " (see NEWS)"), ("Medium", " (see NEWS)")]
+
+
+def kv_all(C):
+    return [[list(kv) for kv in k] for k in C["kv"]] + [[list(kv) for kv in k] for k in _ND_KV]
+
+
+def twins(C):
+    """-> [base block, variant, ...]: every variant differs from the base block in ONE column, and there only in the
+    amount / kind / presence of white space, in letter case, or in the order of the extra pairs."""
+    word, suite = C["pkg"][0], C["dist"][0]
+    x = C["chg"][0][4:]
+    base = [word, "1.0-1", suite, "medium", " (see NEWS)", [["X-a", "b"], ["y", "c d"]], ["  * " + x + " y"],
+            "A B <a@b.c>", "Mon, 01 Jan 2024 00:00:00 +0000"]
+    var = [(4, c) for c in _ND_COMMENTS]
+    var += [(3, "MEDIUM"), (3, "Medium")]
+    var += [(5, k) for k in _ND_KV]
+    var += [(0, word.capitalize()), (2, suite.upper())]
+    var += [(6, ["  * " + x + "  y"]), (6, ["  * " + x.upper() + " Y"]), (6, ["   * " + x + " y"])]
+    var += [(7, "A  B <a@b.c>"), (7, "a b <a@b.c>"), (7, "A B <A@b.c>")]
+    var += [(8, "Mon,  01 Jan 2024 00:00:00 +0000"), (8, "Mon, 1 Jan 2024 00:00:00 +0000")]
+    out = [base]
+    for col, val in var:
+        b = [list(map(list, c)) if i == 5 else list(c) if i == 6 else c for i, c in enumerate(base)]
+        b[col] = [list(kv) for kv in val] if col == 5 else val
+        out.append(b)
+    # harness self-check: distinct blocks, none of them a pool block or a block of the single-block product
+    assert len(out) == TWINS and len({repr(b) for b in out}) == TWINS
+    assert all(b[6][0] not in C["chg"] for b in out)
+    return out
+
+
+def long_blocks(C):
+    """-> 5 blocks with one (the last: every) component at the longest plausible length"""
+    word, suite2 = C["pkg"][0], C["dist"][1]
+    x = C["chg"][0][4:]
+    pkg = ("lib" + word + "-" + "x.y+z-0123456789-" * 4)[:63] + "a"
+    dist = suite2 + " bookworm-security bookworm-backports bookworm-updates oldstable-proposed-updates a.b"
+    chg = ("  * " + (x + " lorem ipsum #1: dolor, ") * 10)[:199] + "z"
+    kv = [["binary-only", "yes"], ["X-a", "b"], ["y", "c d"], ["k4", "v"], ["k5", "1 2  3"], ["Z-6", "w (v)"]]
+    assert len(pkg) == 64 and len(dist) >= 80 and len(dist.split()) == 7 and len(chg) == 200
+    base = [word, "1.0-1", C["dist"][0], "low", "", [], ["  * " + x], "A B <a@b.c>", "Mon, 01 Jan 2024 00:00:00 +0000"]
+    out = []
+    for cols in ({0: pkg}, {2: dist}, {6: ["  * " + x, chg, "    cont"]}, {5: kv},
+                 {0: pkg, 2: dist, 6: [chg], 5: kv, 4: " (see NEWS)"}):
+        b = list(base)
+        for col, val in cols.items():
+            b[col] = val
+        b[5] = [list(p) for p in b[5]]
+        b[6] = list(b[6])
+        out.append(b)
+    return out
 
 
 def mkblock(C, p, v, d, u, k, cs, a, dt):
@@ -218,7 +317,21 @@ def _expected(b):
 
 
 def exec_case(case):
-    """Run one generated document on the real code.  -> (violations, outcome class, evaluations)"""
+    """Run one generated document (or a session: several documents, one after the other, each with its own Changelog
+    object) on the real code.  -> (violations, outcome class, evaluations)"""
+    if "session" in case:
+        bad, outs, ev = [], [], 0
+        for di, doc in enumerate(case["session"]):
+            b, o, e = _exec_doc(doc)
+            # a text that fails only after another one was parsed is a different defect from one that fails alone
+            bad += [(sig + ("+after-another-text" if di else ""), exp, obs) for sig, exp, obs in b]
+            outs.append(o)
+            ev += e
+        return bad, "session: " + " | ".join(outs), ev
+    return _exec_doc(case)
+
+
+def _exec_doc(case):
     from debian.changelog import Changelog
     text, labels = render(case)
     nblocks = len(case["blocks"])
@@ -288,6 +401,8 @@ def exec_case(case):
 
 
 def nontrivial(case):
+    if "session" in case:
+        return all(nontrivial(d) for d in case["session"])
     blocks = case["blocks"]
     if not any(any(l.strip() for l in b[6]) for b in blocks):
         return False
@@ -316,7 +431,15 @@ def _triple_leads(tier):
 
 
 def units(tier, seed):
-    out = []
+    # near-duplicate, spelling and long-component documents come first: they are one- to three-block documents over
+    # one small base block, and a defect that needs an earlier heading (state kept between blocks / texts) shows in
+    # their very first unit when the units are re-run sequentially.  Their violations carry rank 1, so that a defect
+    # which a document of the plain product shows as well is reported with that document.
+    out = [("twin-single",), ("twin-session",)]
+    out += [("twin-pair", i) for i in range(TWINS)]
+    out += [("twin-triple", i) for i in range(TWINS)]
+    out += [("spelling", lead) for lead in range(3)]
+    out += [("long", i) for i in range(5)]
     for lead in range(3):
         for p in range(3):
             for v in range(3):
@@ -332,6 +455,18 @@ def units(tier, seed):
 
 
 def unit_cost(u, tier):
+    if u[0] == "twin-single":
+        return 3 * TWINS
+    if u[0] == "twin-session":
+        return 2 * TWINS ** 2
+    if u[0] == "twin-pair":
+        return 2 * 2 * TWINS
+    if u[0] == "twin-triple":
+        return 3 * TWINS ** 2 + 3 * 2 * TWINS
+    if u[0] == "spelling":
+        return N_URG_ALL * N_KV_ALL * len(_POOL_CHG)
+    if u[0] == "long":
+        return 3 + 2 * 2 * 2 * POOL_SIZE
     if u[0] == "single":
         n = sum(6 ** L for L in range(_maxlen(tier) + 1))
         return 9 * n * len(_author_dates(tier))
@@ -342,20 +477,116 @@ def unit_cost(u, tier):
     return 3 * POOL_SIZE * len(_triple_leads(tier)) * 4
 
 
-def _do(part, case):
+def _do(part, case, rank=0, tag=""):
     bad, outcome, ev = exec_case(case)
-    part.traces += 1
+    part.traces += len(case["session"]) if "session" in case else 1
     part.evaluations += ev
-    part.outcomes[outcome] += 1
+    part.outcomes[tag + outcome] += 1
     if nontrivial(case):
         part.nontrivial += 1
     for sig, exp, obs in bad:
-        part.violation(sig, case, exp, obs)
+        part.violation(sig, case, exp, obs, rank=rank)
+
+
+def _doc(lead, blocks, seps):
+    return {"lead": lead, "blocks": blocks, "seps": seps}
+
+
+def _run_extra_unit(part, u, C):
+    """near-duplicate (twin), spelling and long-component units"""
+    kind = u[0]
+    n = 0
+    case = None
+    if kind.startswith("twin"):
+        T = twins(C)
+        tag = "twin: "
+    if kind == "twin-single":
+        part.max_depth = 2 + 1
+        for lead in range(3):
+            part.states += 1
+            part.transitions += 1
+            for b in T:
+                case = _doc(lead, [b], [])
+                _do(part, case, 1, tag)
+                n += 1
+    elif kind == "twin-session":
+        part.max_depth = 2
+        for a in T:
+            n += 1                         # the first text of the session
+            for b in T:
+                case = {"session": [_doc(0, [a], []), _doc(0, [b], [])]}
+                _do(part, case, 1, tag)
+                n += 1
+        part.extra["sessions of two single-block texts"] += TWINS ** 2
+    elif kind == "twin-pair":
+        a = T[u[1]]
+        part.max_depth = 1 + 1 + 1
+        n += 1
+        for sep in (1, 2):
+            n += 1
+            for b in T:
+                case = _doc(0, [a, b], [sep])
+                _do(part, case, 1, tag)
+                n += 1
+    elif kind == "twin-triple":
+        a = T[u[1]]
+        P = pool(C)
+        part.max_depth = 1 + 2 + 2
+        for b in T:
+            n += 1                         # (a, b): shorter prefixes belong to the twin-pair units
+            for c in T:
+                case = _doc(0, [a, b, c], [1, 1])
+                _do(part, case, 1, tag)
+                n += 1
+        for mid in (P[0], P[11]):
+            n += 1
+            for c in T:
+                case = _doc(0, [a, mid, c], [1, 1])
+                _do(part, case, 1, tag)
+                n += 1
+    elif kind == "spelling":
+        lead = u[1]
+        word, suite = C["pkg"][0], C["dist"][0]
+        U, K = urg_all(C), kv_all(C)
+        part.max_depth = lead + 1 + 5 + 1
+        for ui, (uv, uc) in enumerate(U):
+            n += 1
+            for ki, kv in enumerate(K):
+                if ui < 3 and ki < 3:
+                    continue               # these belong to the single-block product
+                n += 1
+                for cs in _POOL_CHG:
+                    b = [word, "1.0-1", suite, uv, uc, [list(p) for p in kv], [C["chg"][i] for i in cs],
+                         C["auth"][0], C["date"][0]]
+                    case = _doc(lead, [b], [])
+                    _do(part, case, 1, "spelling: ")
+                    n += 1
+    else:
+        L = long_blocks(C)[u[1]]
+        P = pool(C)
+        part.max_depth = 2 + 1 + 7 + 2
+        for lead in range(3):
+            case = _doc(lead, [L], [])
+            _do(part, case, 1, "long: ")
+            n += 1
+        for sep in (1, 2):
+            for b in P:
+                for blocks in ([L, b], [b, L]):
+                    case = _doc(0, blocks, [sep])
+                    _do(part, case, 1, "long: ")
+                    n += 1
+    part.states += n
+    part.transitions += n
+    part.extra["%s documents" % kind.split("-")[0]] += part.traces
+    part.sample(case)
+    return part
 
 
 def run_unit(u, tier, seed):
     part = core.Part()
     C = comps(seed)
+    if u[0].startswith("twin") or u[0] in ("spelling", "long"):
+        return _run_extra_unit(part, u, C)
     if u[0] == "single":
         _, lead, p, v, d = u
         # generator prefixes above the unit level are attributed to the first unit below them
@@ -456,17 +687,19 @@ def replay(case):
 
 
 def repro_py(case):
-    text, _ = render(case)
-    exp = [[_expected(b)[a] for a in ATTRS] for b in case["blocks"]]
+    docs = case["session"] if "session" in case else [case]
+    texts = [render(d)[0] for d in docs]
+    exp = [[[_expected(b)[a] for a in ATTRS] for b in d["blocks"]] for d in docs]
     return ("import warnings\nfrom debian.changelog import Changelog\n"
-            "text = %r\nexpected = %r\n"
-            "with warnings.catch_warnings(record=True) as w:\n"
-            "    warnings.simplefilter('always')\n"
-            "    c = Changelog(text, strict=True)\n"
-            "assert not w, [str(x.message) for x in w]\n"
-            "assert str(c) == text, str(c)\n"
-            "assert len(c) == len(expected), len(c)\n"
-            "for b, e in zip(c, expected):\n"
-            "    got = [b.package, str(b.version), b.distributions, b.urgency, b.urgency_comment, dict(b.other_pairs),\n"
-            "           list(b.changes()), b.author, b.date]\n"
-            "    assert got == e, (got, e)\n" % (text, exp))
+            "texts = %r\nexpected = %r\n"
+            "for text, exp in zip(texts, expected):   # one Changelog object per text, in this order\n"
+            "    with warnings.catch_warnings(record=True) as w:\n"
+            "        warnings.simplefilter('always')\n"
+            "        c = Changelog(text, strict=True)\n"
+            "    assert not w, [str(x.message) for x in w]\n"
+            "    assert str(c) == text, str(c)\n"
+            "    assert len(c) == len(exp), len(c)\n"
+            "    for b, e in zip(c, exp):\n"
+            "        got = [b.package, str(b.version), b.distributions, b.urgency, b.urgency_comment, dict(b.other_pairs),\n"
+            "               list(b.changes()), b.author, b.date]\n"
+            "        assert got == e, (got, e)\n" % (texts, exp))
